@@ -553,6 +553,34 @@ def bits_of_ty(t):
     return 64 if t in ("usize", "isize") else None
 
 
+def r14(db, rep, runs):
+    r = rep.rule("R14", "K9", "three-operand carry: the CF of ADC / SBB (a + b + cin, a - b - cin) cannot be a single unsigned "
+                 "comparison of operand-width values - for every choice of the two compared values there is an input (one operand "
+                 "all ones, carry in set) where it misses the carry; it needs two comparisons, or arithmetic at a wider width")
+    for nm in ("adc", "sbb"):
+        h = SEM + nm
+        res = runs.get(h)
+        rep.anchor(res is not None, "Semantics::%s" % nm)
+        cfs = [o for o in res.ops if o["kind"] == "Assign" and o.get("dst") == "CF"]
+        if len(cfs) != 1:
+            r.open("x86|%s|carry" % nm, db.where(db.hir[h]), "CF is not assigned exactly once")
+            continue
+        e = cfs[0]["src"]
+        ops = [x[2][1] for x in subexprs(e) if x[2][0] == "op"]
+        ncmp = sum(1 for o in ops if o in ("Cmpltu", "Cmplts"))
+        wide = any(o in ("Zext", "Sext") for o in ops)
+        single = ilshape.is_il(e) and e[2][0] == "op" and e[2][1] == "Cmpltu" and ncmp == 1 and not wide
+        fb = db.hir.get(cfs[0]["fn"]) or db.hir[h]
+        if single:
+            r.bad("x86|%s|carry" % nm, db.where(fb, cfs[0]["line"]),
+                  "%s computes CF as one unsigned comparison %s: the carry/borrow of the three-operand operation is lost when an "
+                  "operand is all ones and the carry flag is set" % (nm, ilshape.show_e(e)[:120]))
+        elif ncmp >= 2 or wide:
+            r.ok("x86|%s|carry" % nm, db.where(fb, cfs[0]["line"]), detail={"comparisons": ncmp, "wide": wide})
+        else:
+            r.open("x86|%s|carry" % nm, db.where(fb, cfs[0]["line"]), "carry expression of an unrecognised form: %s" % ilshape.show_e(e)[:120])
+
+
 def run(db, rep, feat, tier):
     rep.explanation = (
         "Static rules over the HIR of lib/translator/x86/**. Register rows are compared with the architectural families; "
@@ -577,6 +605,7 @@ def run(db, rep, feat, tier):
     r11(db, rep, runs)
     r12(db, rep)
     r13(db, rep)
+    r14(db, rep, runs)
     sub = {k: v for k, v in runs.items() if "translator::x86::" in k}
     c05.r2(db, rep, sub, ("x86",), "R7")
     c05.r3(db, rep, sub, ("x86",), "R8")
